@@ -141,3 +141,15 @@ func Describe(sc *world.Scenario) string {
 	}
 	return b.String()
 }
+
+// MaybeLogger switches logging on for a share of the request histories (any handler, any
+// level): no property depends on it, so every oracle must come to the same verdict.
+// C10 and C12 choose the logger themselves (differential / twin runs).
+func MaybeLogger(t *rapid.T, sc *world.Scenario) {
+	if sc == nil || sc.Logger != "" || sc.Store != nil || len(sc.Case) > 0 || sc.Prop == "C10" || sc.Prop == "C12" || sc.Twin != nil {
+		return
+	}
+	if Pct(t, "logger-on", 12) {
+		sc.Logger = Pick(t, "logger-kind", "debug", "debug", "text", "info", "warn", "error")
+	}
+}
